@@ -230,14 +230,20 @@ Section Oracle.
                    if ok then ids else ids ++ expected_pre_ids rest
     end.
 
-  (** ids of the condition evaluations of a role, the immediate re-evaluation of a lambda for its message dropped *)
+  Definition is_lambda_id (k : Z) : bool :=
+    existsb (fun i => Z.eqb (cid i) k && clambda i)
+            (List.concat pre ++ post ++ match k_invs c with Some l => l | None => [] end).
+
+  (** ids of the condition evaluations of a role, the immediate re-evaluation of a lambda for its message dropped
+      (an immediate repetition of a condition that is not a lambda is a second evaluation: the same inherited
+      condition at the head of two groups of a diamond) *)
   Fixpoint cond_ids (r : role) (t : list event) (prev : option Z) : list Z :=
     match t with
     | [] => []
     | EvCond r' k _ _ :: rest =>
         if role_eqb r r'
         then (match prev with
-              | Some k0 => if Z.eqb k0 k then cond_ids r rest None else k :: cond_ids r rest (Some k)
+              | Some k0 => if Z.eqb k0 k && is_lambda_id k then cond_ids r rest None else k :: cond_ids r rest (Some k)
               | None => k :: cond_ids r rest (Some k)
               end)
         else cond_ids r rest None
@@ -259,11 +265,16 @@ Section Oracle.
   Definition all_contracts : list contract :=
     List.concat pre ++ post ++ match k_invs c with Some l => l | None => [] end.
 
+  (** on how many inheritance paths a contract reaches the callable (1 unless a diamond lists it once per path) *)
+  Definition paths_of (k : contract) : nat :=
+    List.length (filter (fun i => Z.eqb (cid i) (cid k)) all_contracts).
+
   Definition spec_C16 (t : list event) (r : pv + exn) : bool :=
     phases_ok 0 false t
-    (* every condition at most once per check; a lambda once more for its message; invariants twice (before, after) *)
+    (* every condition at most once per check (and inheritance path); a lambda once more for its message;
+       invariants twice (before, after) *)
     && forallb (fun k => Nat.leb (count_cond (cid k) t)
-                                 ((if clambda k then 2 else 1)
+                                 ((paths_of k * (if clambda k then 2 else 1))
                                   * (if existsb (fun i => Z.eqb (cid i) (cid k))
                                                 (match k_invs c with Some l => l | None => [] end) then 2 else 1)))
                all_contracts
@@ -333,8 +344,8 @@ Section Oracle.
   Definition spec_C09 (t : list event) (r : pv + exn) : bool :=
     error_events_ok t
     && forallb (fun k => Nat.leb (count_error (cid k) t)
-                                 (if existsb (fun i => Z.eqb (cid i) (cid k))
-                                             (match k_invs c with Some l => l | None => [] end) then 2 else 1))
+                                 (paths_of k * (if existsb (fun i => Z.eqb (cid i) (cid k))
+                                                           (match k_invs c with Some l => l | None => [] end) then 2 else 1)))
                all_contracts
     && outcome_as_expected r.
 
